@@ -453,7 +453,7 @@ pub fn run(run: &mut Run, args: &Args) {
             run.count("exec_error");
         }
         if rt::same_outcome(&ob, &oa, chain.ordered, SchemaLevel::TypesExact).is_ok() {
-            judge_case(run, &df_plan, &sql_plan, &[&ds, &ds2], chain.ops.len() >= 2);
+            judge_case(run, &df_plan, &sql_plan, &[&ds], chain.ops.len() >= 2);
         } else {
             run.count("judge_skipped_oracle_failed");
         }
